@@ -237,8 +237,9 @@ def main(argv):
 
     # a broken obligation with no failing input yet: widen the search once
     if broken and not unknown and crash is None and tier == 'quick' and hasattr(mod, 'run'):
-        ctx.notes.append('obligation broken; widened search (scale x4, second seed)')
-        ctx.scale = 4
+        first = time.time() - t0
+        ctx.scale = 4 if first < 40 else (2 if first < 150 else 1)      # keep the widened search within minutes
+        ctx.notes.append('obligation broken; widened search (scale x%d, second seed)' % ctx.scale)
         ctx.rng = random.Random(seed + 7919)
         nd = len(ctx.disagreements)
         try:
